@@ -68,6 +68,12 @@ def run(report, tier, seed):
     lp_assembly_spec.feed(report, tier)
     lp_assembly_spec.feed_solve(report, tier)
     report.replayer = make_replayer()
+    from engine.checks import py_common
+    py_common.demote_unconfirmed_shape_checks(
+        report, lambda ob: 'syntactic' in (ob.by or []) or
+        ':maps:' in ob.oid,
+        'the statement that fills vmap / mmap is not of the form the '
+        'contract reads')
     report.floor = 20
     report.not_decided += [
         'the epigraph expansion of piecewise-linear objectives and '
